@@ -176,6 +176,10 @@ func (s *sym) stmt(st ast.Stmt) {
 		if s.ctl == "break" {
 			s.ctl = ""
 			s.effects = append(s.effects, "leave-loop")
+		} else if s.ctl == "return" {
+			// a return inside the loop leaves the loop too (and skips whatever follows the loop: ctl stays "return", so
+			// effects after the loop, if any, still tell `return` and `break` apart)
+			s.effects = append(s.effects, "leave-loop")
 		} else if s.ctl == "" || s.ctl == "continue" {
 			s.ctl = ""
 			s.effects = append(s.effects, "next-iteration")
@@ -942,6 +946,7 @@ func (f *facts) flowTables(conn, tr *ast.File) string {
 		emit("apiVersionsFlow", rows, unk)
 	}
 	if fd := findFunc(conn, "Conn", "ReadBatchWith"); fd != nil {
+		hdrFwd := f.forwarders(conn, func(n string) bool { return strings.HasPrefix(n, "readFetchResponseHeaderV") })
 		last = ""
 		classify := errAfter(map[string]string{"seek": "seekFailed", "negotiate": "negotiateFailed", "doRequest": "requestFailed",
 			"waitResponse": "waitFailed", "header": "headerFailed", "drain": "headerFailed", "newReader": "firstHeaderFailed"}, func(e ast.Expr) string {
@@ -970,7 +975,7 @@ func (f *facts) flowTables(conn, tr *ast.File) string {
 			case strings.HasSuffix(p, ".negotiateVersion"):
 				last = "negotiate"
 				return "negotiate"
-			case strings.HasPrefix(p, "readFetchResponseHeaderV"):
+			case strings.HasPrefix(p, "readFetchResponseHeaderV") || hdrFwd[lastName(p)]:
 				last = "header"
 				return "readHeader"
 			case p == "discardOnKafkaError":
